@@ -1066,6 +1066,8 @@ class Interp:
                 if tm.is_const(a0): return IterV(recv.name, recv.elem, recv.consumed + a0.args[0], ())
             return IterV(recv.name, recv.elem, recv.consumed, recv.adapters + (m,))     # any other adapter: remembered by name only
         args = [self.ev_arg(env, a) for a in n["args"]]
+        if ("?::" + m) in self.ctx.contracts and not isinstance(recv, (Vec, T)):
+            return self.ctx.contracts["?::" + m](self, env, n, [recv] + args)      # a recording hook for this method name, whatever the receiver
         if isinstance(recv, RangeV) and m == "clone": return recv
         if isinstance(recv, Havoc) and self.tolerant:
             # a method of an unknown value: unknown result; it may write through `&mut` arguments (their roots are havoc'd) and into the receiver
